@@ -1,4 +1,5 @@
 """C08 - Library views stay consistent under any history of add / remove / replace."""
+from props import pubapi
 import itertools
 import json
 
@@ -144,7 +145,7 @@ def rebuild_as(M, b, cls):
         n = cls(b.comment, b.start_line, b.raw)
     else:
         n = cls(b.error, b.start_line, b.raw)
-    n._parser_metadata = b.parser_metadata
+    pubapi.set_backing(n, "block.parser_metadata", b.parser_metadata)
     return n
 
 
